@@ -187,6 +187,12 @@ func ruleGridAdvance(c *eng.Ctx) {
 			for cur := range cursors {
 				loopNo++
 				key := fmt.Sprintf("%s#cells-loop(%s)", name, cur.Name())
+				if onlyMeasuredAgainstConstant(fd.Decl.Body, info, cur) {
+					// a budget counter (how much of a fixed allowance the row has used), not a position: it is never an index,
+					// an argument, a result or a stored value, only an operand next to a constant
+					c.Ok(R, key, rs.Pos(), "not a column cursor: the counter is only ever measured against a constant bound")
+					continue
+				}
 				// spanLocal: locals assigned from <cell>.ColSpan in the body
 				spanLocal := map[types.Object]bool{}
 				ast.Inspect(rs.Body, func(m ast.Node) bool {
@@ -632,4 +638,56 @@ func ruleStreamDepth(c *eng.Ctx) {
 				"an element is recorded by name while its descendants stay in the token stream and no nesting depth is tested: a same-named descendant (a paragraph inside a table cell) is taken for the next sibling")
 		}
 	}
+}
+
+// onlyMeasuredAgainstConstant reports whether every read of v in body (other than its own += / ++ step) is an operand of a
+// binary expression whose other operand is a compile-time constant: such a variable is a budget, never a position.
+func onlyMeasuredAgainstConstant(body *ast.BlockStmt, info *types.Info, v types.Object) bool {
+	var stack []ast.Node
+	reads, ok := 0, true
+	ast.Inspect(body, func(n ast.Node) bool {
+		if n == nil {
+			stack = stack[:len(stack)-1]
+			return true
+		}
+		stack = append(stack, n)
+		id, isID := n.(*ast.Ident)
+		if !isID || info.ObjectOf(id) != v {
+			return true
+		}
+		// the step statement itself
+		if len(stack) >= 2 {
+			switch p := stack[len(stack)-2].(type) {
+			case *ast.IncDecStmt:
+				return true
+			case *ast.AssignStmt:
+				if len(p.Lhs) == 1 && p.Lhs[0] == ast.Expr(id) {
+					return true
+				}
+			case *ast.ValueSpec:
+				return true
+			}
+		}
+		reads++
+		var child ast.Node = id
+		for i := len(stack) - 2; i >= 0; i-- {
+			switch p := stack[i].(type) {
+			case *ast.ParenExpr:
+				child = p
+				continue
+			case *ast.BinaryExpr:
+				other := p.X
+				if p.X == child {
+					other = p.Y
+				}
+				if tv, has := info.Types[other]; has && tv.Value != nil {
+					return true
+				}
+			}
+			break
+		}
+		ok = false
+		return true
+	})
+	return ok && reads > 0
 }
